@@ -5,7 +5,8 @@ import Ase.Chunks
   theorems quantify over every `inflate`.  The correspondence check compares this instance
   with flate2 on every stream it meets (see DESIGN 4.4).
 
-  Port of zlib's `contrib/puff/puff.c`.
+  Port of zlib's `contrib/puff/puff.c`, with the one deviation of the real decoder from zlib
+  noted in `codes` (distances before the start of the output).
 -/
 namespace Ase.Zlib
 
@@ -96,10 +97,12 @@ partial def codes (lencode distcode : Huff) : ZM Unit := do
     if ds ≥ 30 then throw .corrupt
     let dist := dbase[ds]! + (← getBits dext[ds]!)
     let s ← get
-    if dist > s.out.size then throw .corrupt
+    -- flate2's streaming decoder (miniz_oxide) inflates into a zero-initialised 32 KiB circular
+    -- dictionary and rejects only distances above 32768 (which cannot be encoded): a distance
+    -- that reaches before the start of the output is NOT an error, those bytes read as 0
     let mut out := s.out
     for _ in [0:len] do
-      out := out.push (out.get! (out.size - dist))
+      out := out.push (if out.size ≥ dist then out.get! (out.size - dist) else 0)
     set { s with out := out }
     codes lencode distcode
 
